@@ -662,17 +662,13 @@ def run_optimizer_scenario(ctx: Ctx, scn, collect):
                 ret = opt.step(inp, target)
             except ScriptedFailure as e:
                 exc = e
-            except AssertionError as e:
-                if "Jacobian contains Nan" in str(e):     # overflowed parameters: outside the property's domain
-                    exc = "abandon"
-                elif solver.log[s0:] and solver.log[-1].get("action") == "natural-raise":
-                    exc = e
-                else:
-                    raise
             except Exception as e:
-                # natural failure of a real solver inside GN (LM catches everything)
-                if solver.log[s0:] and solver.log[-1].get("action") == "natural-raise":
-                    exc = e
+                nonfin = (not all_finite(*[p for p in module.parameters()])
+                          or not all_finite(*[ev["D"] for ev in solver.log[s0:] if "D" in ev]))
+                if "Jacobian contains Nan" in str(e) or nonfin:
+                    exc = "abandon"      # overflowed parameters / NaN residuals: outside the property's domain
+                elif not is_lm and solver.log[s0:] and solver.log[-1].get("action") == "natural-raise":
+                    exc = e              # natural failure of a real solver inside GN (LM catches everything)
                 else:
                     raise
         if exc == "abandon":
